@@ -309,6 +309,52 @@ def dynamic_limit(sym, tier):
     return r
 
 
+def async_server(sym, tier):
+    """3 requests with symbolic arrival instants into a real AsyncServer (one CPU, 2 ns of CPU work per
+    request, then an I/O phase that is a 3 ns generator wait or returns at once): every accepted request
+    completes exactly once, the CPU queue is never left stranded, nothing is dated before the clock."""
+    from happysimulator.components.server.async_server import AsyncServer
+    r = Result()
+    io_kind = sym.choice("io_phase", 3)          # 0 none, 1 immediate, 2 generator wait
+    done = []
+
+    def io(ev):
+        lbl = ev.context["metadata"]["label"]
+        if io_kind == 1:
+            done.append((lbl, "io-immediate"))
+            return None
+
+        def g():
+            yield 3e-9
+            done.append((lbl, "io-done"))
+            return None
+        return g()
+
+    srv = AsyncServer("as", cpu_work_distribution=ConstantLatency(2e-9), io_handler=(io if io_kind else None))
+    sim = Simulation(entities=[srv])
+    mon = Monitor(sim, cap=60)
+    m = 3
+    ts = [sym.int(f"arrive{i}", 0, 4) for i in range(m)]
+    sim.schedule([mk_event(ts[i], f"req{i}", srv) for i in range(m)])
+    try:
+        sim.run()
+    except SpinDetected:
+        pass
+    mon.judge(r, "async_server")
+    st = srv.stats
+    if not mon.spun and st.requests_completed + st.requests_rejected != m:
+        r.bad("every_request_completed_or_counted_as_rejected", {"completed": st.requests_completed, "rejected": st.requests_rejected, "offered": m,
+                                                                   "arrivals_ns": ts, "io_phase": io_kind, "cpu_queue_left": len(srv._cpu_queue)})
+    if io_kind and len(done) != st.requests_completed:
+        r.bad("request_completed_at_most_once", {"io_done": done, "completed": st.requests_completed})
+    if len(set(ts)) < m:
+        r.wit.add("requests_queue_for_the_cpu")
+    if io_kind == 2:
+        r.wit.add("generator_io_phase")
+    r.obs = {"completed": st.requests_completed}
+    return r
+
+
 def _pipe_classify(clause, draws, obs):
     return None
 
@@ -362,4 +408,10 @@ HARNESSES = [
       functions=["DynamicConcurrency.set_limit/acquire/release/has_capacity", "QueueDriver._handle_notify/_handle_work_payload", "Server.handle_queued_event"],
       bounds=lambda tier: {"requests": 4 if tier == "quick" else 5, "arrivals": "symbolic ns [0,3]", "service ns": 3, "limit": "1..3 -> 1..3 at a symbolic ns in [0,6]"},
       outside=["ShiftedServer / ShiftSchedule capacity changes", "more than one limit change"]),
+    H(name="c08_async_server", fn=async_server, shape="S", budget=lambda tier: 600.0,
+      cubes=lambda tier: [{"io_phase": a} for a in range(3)],
+      require=lambda tier: ["requests_queue_for_the_cpu", "generator_io_phase"], classify=_pipe_classify,
+      functions=["AsyncServer.handle_event/_start_cpu_processing/_on_cpu_complete/_process_next_cpu_task/_complete_request"],
+      bounds=lambda tier: {"requests": 3, "arrivals": "symbolic ns [0,4]", "cpu ns": 2, "io phase": ["none", "immediate", "3 ns generator wait"]},
+      outside=["max_connections rejections", "I/O handlers that emit events"]),
 ]
